@@ -1,4 +1,85 @@
-import Walleye.Model.MoveGen
+/-
+  C08 — `go` is always answered and the engine stays responsive (logic; latency is measured).
+-/
+import Walleye.Props.C17
+import Walleye.Proofs.Reports
 namespace Walleye
-theorem C08_placeholder (c : Color) : c.opp.opp = c := Color.opp_opp c
+open Str
+
+variable (h : Hasher) (search : Pos → DrawTable → Nat → Option Pos)
+
+/-- in a position without legal moves (mate or stalemate) `go` is answered at once with the null
+    move, whatever the clocks are, and the state is kept (the defect fixed in 3a50ceb) -/
+theorem go_on_terminal_position_answers_null_move (σ : Sess) (raw : List Char) (gt : GameTime)
+    (hc : String.ofList ((splitOn ' ' (cleanInput raw)).headD []) = "go")
+    (hg : parseGoCommand (splitOn ' ' (cleanInput raw)) = some gt)
+    (hterm : generateMoves h σ.board .all = []) :
+    step h search σ (some raw) = .cont σ ["bestmove 0000"] := by
+  unfold step
+  simp +decide only [hc, if_true, if_false, hg, hterm, List.isEmpty_nil]
+
+/-- after any answered command the machine accepts the next one: `isready` → `readyok` -/
+theorem session_continues (σ : Sess) (out : List String) (raw raw2 : List Char) (σ' : Sess)
+    (_h1 : step h search σ (some raw) = .cont σ' out)
+    (hc : String.ofList ((splitOn ' ' (cleanInput raw2)).headD []) = "isready") :
+    step h search σ' (some raw2) = .cont σ' ["readyok"] := isready_answered h search σ' raw2 hc
+
+/-! ### the polling loop over an arbitrary schedule -/
+
+/-- if the loop exits, the board it returns is one that arrived (or the one it started with) -/
+theorem ioLoop_result_mem (sched : List (Bool × Option Pos)) (best r : Option Pos)
+    (hr : ioLoop sched best = some r') : some r' = best ∨ some r' ∈ sched.map (·.2) := by
+  induction sched generalizing best with
+  | nil => simp [ioLoop] at hr
+  | cons x xs ih =>
+    obtain ⟨oot, arr⟩ := x
+    unfold ioLoop at hr
+    split at hr
+    · left; exact hr.symm
+    · cases arr with
+      | some b =>
+        simp only [takeMsg] at hr
+        cases ih (some b) hr with
+        | inl e => right; simp [e]
+        | inr e => right; simp only [List.map_cons, List.mem_cons]; right; exact e
+      | none =>
+        simp only [takeMsg] at hr
+        cases ih best hr with
+        | inl e => left; exact e
+        | inr e => right; simp only [List.map_cons, List.mem_cons]; right; exact e
+
+/-- the loop exits at the first poll at which the deadline has passed and a board is held -/
+theorem ioLoop_exits (pre : List (Bool × Option Pos)) (rest : List (Bool × Option Pos)) (best b : Option Pos)
+    (hpre : ∀ x ∈ pre, x.1 = false) (hb : (pre.foldl (fun acc x => takeMsg x.2 acc) best) = b)
+    (hsome : b.isSome) (arr : Option Pos) :
+    ioLoop (pre ++ (true, arr) :: rest) best = b := by
+  induction pre generalizing best with
+  | nil =>
+    simp only [List.nil_append, List.foldl_nil] at *
+    subst hb
+    unfold ioLoop
+    simp [hsome]
+  | cons x xs ih =>
+    obtain ⟨oot, a⟩ := x
+    have ho : oot = false := hpre (oot, a) (by simp)
+    subst ho
+    simp only [List.cons_append, ioLoop, Bool.false_eq_true, false_and, if_false]
+    apply ih
+    · intro y hy; exact hpre y (by simp [hy])
+    · simpa using hb
+
+/-- without any arrival the loop never exits: this is why a terminal position has to be answered
+    before the loop is entered -/
+theorem ioLoop_no_message_never_exits (sched : List (Bool × Option Pos))
+    (hno : ∀ x ∈ sched, x.2 = none) : ioLoop sched none = none := by
+  induction sched with
+  | nil => rfl
+  | cons x xs ih =>
+    obtain ⟨oot, arr⟩ := x
+    have : arr = none := hno (oot, arr) (by simp)
+    subst this
+    unfold ioLoop
+    simp only [Option.isSome_none, Bool.false_eq_true, and_false, if_false, takeMsg]
+    exact ih (fun y hy => hno y (by simp [hy]))
+
 end Walleye
